@@ -116,7 +116,7 @@ fn check_d<const D: usize>(c: &Case, ctx: &mut Ctx) -> Result<(), Failure> {
             let g = &c.a.g;
             let s = sut::build::<D>(g, c.a.kin.sig.clone());
             if let Ok(s) = s {
-                let r2 = sut::sample_f64(&s, &c.a.x, sut::edge_data::<D>(&g.massive, &b2.kin.masses, &b2.kin.shifts), None, false, false);
+                let r2 = sut::sample_f64(&s, &c.a.x, sut::edge_data::<D>(&c.a.mass_given(), &b2.kin.masses, &b2.kin.shifts), None, false, false);
                 if let Ok(o2) = r2 {
                     if o2.all_finite() && ev.out.all_finite() {
                         if o2.u.to_bits() != ev.out.u.to_bits() {
@@ -148,8 +148,8 @@ fn check_d<const D: usize>(c: &Case, ctx: &mut Ctx) -> Result<(), Failure> {
         let g = &c.a.g;
         if let Ok(s) = sut::build::<D>(g, c.a.kin.sig.clone()) {
             let zero = vec![0.0; g.nedges()];
-            let _ = sut::sample_f64(&s, &c.a.x, sut::edge_data::<D>(&g.massive, &zero, &c.a.kin.shifts), None, false, false);
-            if let Ok(o) = sut::sample_f64(&s, &c.a.x, sut::edge_data::<D>(&g.massive, &c.a.kin.masses, &c.a.kin.shifts), None, false, false) {
+            let _ = sut::sample_f64(&s, &c.a.x, sut::edge_data::<D>(&c.a.mass_given(), &zero, &c.a.kin.shifts), None, false, false);
+            if let Ok(o) = sut::sample_f64(&s, &c.a.x, sut::edge_data::<D>(&c.a.mass_given(), &c.a.kin.masses, &c.a.kin.shifts), None, false, false) {
                 if o.bits() != ev.out.bits() && hx_fresh(&c.a) {
                     fail!("edge-data-remembered", "after one evaluation with all masses zero, the same sampler gives a different result for the real masses than a fresh sampler: v = {:e} vs {:e}; case {c:?}", o.v, ev.out.v);
                 }
